@@ -221,3 +221,58 @@ Proof.
   - cbn [snd]. unfold init_procs. rewrite map_map. cbn [fst]. rewrite map_id. exact HF.
   - intros e [].
 Qed.
+
+(** ** sequential form: a finished call, then ANY history without removal (interleaved calls of
+    anybody, enable/disable maintenance passes), then another call on the same value *)
+Lemma step_nth_ext enc i : forall cs s t s' t' cs',
+  step_nth enc i cs (s, t) = ((s', t'), cs') -> ext s s'.
+Proof.
+  induction i as [|i IH]; intros cs s t s' t' cs'; destruct cs as [|[c p] r]; cbn [step_nth].
+  - intros [= <- _ _]. apply ext_refl.
+  - destruct (pstep enc c (s, t) p) as [[s1 t1] p1] eqn:P. intros [= <- _ _]. exact (pstep_ext _ _ _ _ _ _ _ _ P).
+  - intros [= <- _ _]. apply ext_refl.
+  - destruct (step_nth enc i r (s, t)) as [[s1 t1] r'] eqn:R. intros [= <- _ _]. exact (IH _ _ _ _ _ _ R).
+Qed.
+
+Lemma run_events_dmono enc es : forall x, Forall no_remove es ->
+  dmono (fst (fst x)) (fst (fst (run_events enc es x))).
+Proof.
+  induction es as [|e r IH]; intros x NR; cbn [run_events fold_left]; [apply dmono_refl|].
+  inversion NR as [|e0 l He Hr]; subst. eapply dmono_trans; [|exact (IH _ Hr)].
+  destruct x as [[s t] cs]. destruct e as [i|f]; cbn [sys_step fst snd no_remove] in *.
+  - destruct (step_nth enc i cs (s, t)) as [[s' t'] cs'] eqn:S. cbn [fst].
+    apply ext_dmono. exact (step_nth_ext _ _ _ _ _ _ _ _ S).
+  - apply visit_dmono, He.
+Qed.
+
+Lemma tokenize_hfact enc c s t s1 tok :
+  c_mode c = Consistent -> tokenize enc c s t = (s1, Ok tok) -> hfact c s1 tok /\ ext s s1.
+Proof.
+  intros M T. unfold tokenize in T.
+  destruct (run_solo enc SOLO_FUEL c (s, t) (pinit c)) as [[s' t'] p] eqn:R. injection T as <- P.
+  destruct (run_solo_inv _ _ _ _ _ _ _ _ _ R (proc_ok_init s c)) as [[_ F] E]. cbn [fst snd] in F.
+  split; [|exact E]. apply (F M). destruct p as [tr|tr m|tr tk|r]; cbn [presult] in P; try discriminate P.
+  rewrite P. reflexivity.
+Qed.
+
+Lemma consistent_across_maintenance enc c1 c2 s0 t1 s1 tok1 es calls t' t2 s3 tok2 :
+  c_mode c1 = Consistent -> c_mode c2 = Consistent ->
+  c_val c1 = c_val c2 -> c_ctx c1 = c_ctx c2 -> c_ty c1 = c_ty c2 ->
+  Forall no_remove es ->
+  tokenize enc c1 s0 t1 = (s1, Ok tok1) ->
+  tokenize enc c2 (fst (fst (run_events enc es ((s1, t'), init_procs calls)))) t2 = (s3, Ok tok2) ->
+  tok1 = tok2.
+Proof.
+  intros M1 M2 Hv Hc Ht NR T1 T2.
+  destruct (tokenize_hfact _ _ _ _ _ _ M1 T1) as [F1 _].
+  destruct (tokenize_hfact _ _ _ _ _ _ M2 T2) as [F2 E2].
+  pose proof (run_events_dmono enc es ((s1, t'), init_procs calls) NR) as D. cbn [fst] in D.
+  assert (hfact c1 s3 tok1) as F1'.
+  { eapply hfact_dmono; [|exact F1]. eapply dmono_trans; [exact D| apply ext_dmono, E2]. }
+  apply (sys_inv_agree ((s3, t2), [(c1, PDone (Ok tok1)); (c2, PDone (Ok tok2))]) c1 c2); try assumption.
+  - unfold sys_inv. cbn [fst snd]. repeat constructor; cbn [fst snd]; try exact I.
+    + intros _ tok [= <-]. exact F1'.
+    + intros _ tok [= <-]. exact F2.
+  - left. reflexivity.
+  - right. left. reflexivity.
+Qed.
